@@ -146,8 +146,12 @@ def concretise(ctx, rng, scripts):
         sc["retries"] = 1
     if not zero:
         raise vcheck.Infra("no script with a removal to run with commit_retries = 0")
-    slow = [sc for sc in scripts if has(sc, lambda st: st["a"] == "join" and st["pins"]) and "retries" not in sc] or \
-           [sc for sc in scripts if has(sc, lambda st: st["a"] == "join")]
+    # a join into a cluster of >= 2 members: the AddVoter entry commits without the joiner's vote, so
+    # nothing but WaitForSync makes the joiner wait for its state
+    third = lambda st: st["a"] == "join" and len(st["members"]) >= 3
+    slow = [sc for sc in scripts if has(sc, third) and "retries" not in sc] or [sc for sc in scripts if has(sc, third)]
+    if not slow:
+        raise vcheck.Infra("no script with a join into a cluster of two or more members")
     for sc in slow[:1 if ctx.quick() else 4]:
         sc["ballast"] = 200
         sc["slowjoin"] = 10
